@@ -32,15 +32,66 @@ type Case struct {
 	Regions  *RegionsCase      `json:"regions,omitempty"`
 }
 
-// Clone deep-copies a case through JSON (cases are small).
+// Clone deep-copies a case.
 func (c *Case) Clone() *Case {
-	data, err := json.Marshal(c)
-	if err != nil {
-		panic(err)
+	d := *c
+	d.Input = append([]byte(nil), c.Input...)
+	d.Input2 = append([]byte(nil), c.Input2...)
+	if c.Plan != nil {
+		p := *c.Plan
+		p.Chunks = append([]int(nil), c.Plan.Chunks...)
+		if c.Plan.Fault != nil {
+			f := *c.Plan.Fault
+			p.Fault = &f
+		}
+		d.Plan = &p
 	}
-	var d Case
-	if err := json.Unmarshal(data, &d); err != nil {
-		panic(err)
+	if c.File != nil {
+		f := *c.File
+		d.File = &f
+	}
+	if c.Sink != nil {
+		x := *c.Sink
+		d.Sink = &x
+	}
+	if c.Consumer != nil {
+		x := *c.Consumer
+		d.Consumer = &x
+	}
+	if c.Rec != nil { // small: through JSON
+		data, err := json.Marshal(c.Rec)
+		if err != nil {
+			panic(err)
+		}
+		d.Rec = &WriteRec{}
+		if err := json.Unmarshal(data, d.Rec); err != nil {
+			panic(err)
+		}
+	}
+	if c.Trie != nil {
+		t := *c.Trie
+		t.Alphabet = append([]byte(nil), c.Trie.Alphabet...)
+		t.Ops = make([]TrieOp, len(c.Trie.Ops))
+		for i, o := range c.Trie.Ops {
+			o.Arg = append([]byte(nil), o.Arg...)
+			t.Ops[i] = o
+		}
+		if c.Trie.KeyOrder != nil {
+			k := *c.Trie.KeyOrder
+			t.KeyOrder = &k
+		}
+		d.Trie = &t
+	}
+	if c.Regions != nil {
+		r := *c.Regions
+		r.Starts = append([]int(nil), c.Regions.Starts...)
+		r.Ends = append([]int(nil), c.Regions.Ends...)
+		r.Schedule = append([]int(nil), c.Regions.Schedule...)
+		r.Tasks = make([][]RegOp, len(c.Regions.Tasks))
+		for i, t := range c.Regions.Tasks {
+			r.Tasks[i] = append([]RegOp(nil), t...)
+		}
+		d.Regions = &r
 	}
 	return &d
 }
